@@ -266,13 +266,17 @@ impl From<&RangeList> for RangeMap {
             }
         });
         let (min_slot, map_len) = match (min_slot, max_slot) {
-            (Some(min_slot), Some(max_slot)) => (min_slot, max_slot - min_slot + 1),
+            // A list that is not sorted must not make the length wrap around.
+            (Some(min_slot), Some(max_slot)) if min_slot <= max_slot => {
+                (min_slot, max_slot - min_slot + 1)
+            }
             _ => (0, 0),
         };
 
         let mut exists_map = vec![false; map_len];
         for range in range_list.get_ranges().iter() {
-            for slot_num in range.start()..=range.end() {
+            // Slots from SLOT_NUM on can never be looked up: do not walk them.
+            for slot_num in range.start()..=std::cmp::min(range.end(), SLOT_NUM - 1) {
                 if let Some(slot) = slot_num
                     .checked_sub(min_slot)
                     .and_then(|inner_index| exists_map.get_mut(inner_index))
